@@ -75,6 +75,21 @@ def static_count(job, r, info):
             memo[k] = (1 if m["calls"] > 0 else 0) + max([ss_need(by_addr[t]) for _, t, _ in m.get("_sites", []) if t in by_addr] or [0])
         return memo[k]
     info["ss_need"] = (1 if v == "rimifull" else 0) + max([ss_need(m) for m in info["methods"]] or [0])
+    # tie to the model: ImageSem.count_method / need_method evaluated by the extracted model on the same image
+    bad = []
+    for addr, mc, mn in r.get("_model_counts") or []:
+        m = by_addr.get(addr)
+        if m is None:
+            bad.append(f"model method at {hex(addr)} not found in the decoded image")
+            continue
+        if count(m) != mc:
+            bad.append(f"method {hex(addr)}: static instruction count {count(m)} from the decoded image, "
+                       f"ImageSem.count_method gives {mc}")
+        if v not in ("rimiss", "rimifull", "fixer") or m["calls"] == 0:
+            pass
+        if need(m) != mn:
+            bad.append(f"method {hex(addr)}: stack need {need(m)} from the decoded frames, ImageSem.need_method gives {mn}")
+    info["model_mismatch"] = bad
     return total, 88 + tramp_frame + stack, hits
 
 
@@ -94,6 +109,8 @@ def judge(job, r, ctx_seed=0, want=("C01", "C02", "C03", "C05", "C06", "C07", "C
         return issues
     try:
         expected_steps, stack_bound, hits = static_count(job, r, info)
+        for w in info.get("model_mismatch", [])[:3]:
+            issues.append((["MODEL"], w))
     except Exception as e:  # structure too broken to predict
         issues.append((["C06"], f"static count not computable: {type(e).__name__} {e}"))
         expected_steps, stack_bound, hits = None, 1 << 19, []
